@@ -138,7 +138,8 @@ func verifC08Exec(op string) string {
 // ---------- building a configuration by reflection ----------
 
 type verifC08Filler struct {
-	r  *verifutil.Rand
+	r      *verifutil.Rand
+	noPtrs bool // leave every pointer nil (used for the base a patch is applied to)
 	ss []string // field:value of every StringSize
 	du []string // field:value of every Duration
 }
@@ -264,7 +265,7 @@ func (g *verifC08Filler) fill(v reflect.Value, path string, hitClasses bool) {
 		fs := []float64{0, 1, -1, 0.1, 1.5, -2.25, 1e21, 1e-7, math.MaxFloat64, math.SmallestNonzeroFloat64, 30, 29.97, math.Float64frombits(r.U64() & 0x7fefffffffffffff)}
 		v.SetFloat(fs[r.Intn(len(fs))])
 	case reflect.Pointer:
-		if r.Chance(1, 3) {
+		if !g.noPtrs && r.Chance(1, 3) {
 			nv := reflect.New(t.Elem())
 			g.fill(nv.Elem(), path, hitClasses)
 			v.Set(nv)
@@ -380,7 +381,13 @@ func verifC08ConfRT(seed uint64) string {
 	if err = jsonwrapper.Unmarshal(b, &og); err != nil {
 		return "err global"
 	}
+	// the base the patch is applied to differs from the original in (almost) every parameter; its optional
+	// (pointer) parameters are unset, because a PATCH cannot unset a parameter
+	gb := &verifC08Filler{r: verifutil.NewRand(seed ^ 0x5bd1e995), noPtrs: true}
 	c2 := &Conf{}
+	gb.fill(reflect.ValueOf(c2).Elem(), "", false)
+	gb.fill(reflect.ValueOf(&c2.PathDefaults).Elem(), "pathDefaults", false)
+	c2.OptionalPaths = nil
 	c2.PatchGlobal(&og)
 	verifC08Diff(reflect.ValueOf(c).Elem(), reflect.ValueOf(c2).Elem(), "", &diffs)
 
@@ -410,7 +417,9 @@ func verifC08ConfRT(seed uint64) string {
 		if err = c2.ReplacePath(name, &op2); err != nil {
 			return "err replace"
 		}
-		p2 := newPath(&Path{}, c2.OptionalPaths[name])
+		defaults := &Path{}
+		gb.fill(reflect.ValueOf(defaults).Elem(), "defaults", false)
+		p2 := newPath(defaults, c2.OptionalPaths[name])
 		verifC08Diff(reflect.ValueOf(p).Elem(), reflect.ValueOf(p2).Elem(), "paths."+name, &diffs)
 		// the optional form itself: marshal -> unmarshal
 		b3, err3 := json.Marshal(&op2)
